@@ -32,8 +32,12 @@ Definition resolves (o : nobs) : bool :=
 Definition accepted (o : nobs) : bool :=
   match o_parser o with Ok (Some _) => true | _ => false end.
 
+(** a canonical dotted name: non-empty segments, each normalised *)
+Definition canonical (ad : bool) (n : string) : bool :=
+  forallb (fun seg => negb (String.eqb seg "")) (split_char "." n) && normalized ad n.
+
 Definition name_ok (ad : bool) (n : string) (o : nobs) : bool :=
-  let canon := negb (String.eqb n "") && normalized ad n in
+  let canon := canonical ad n in
   Bool.eqb (accepted o) (canon && resolves o) &&
   (if accepted o then
      match o_ran o, o_getitem o with
